@@ -934,6 +934,18 @@ def _enum(rec, sub, quick, sharded):
     rec.exhaustive[sub] = True
 
 
+
+def oracle_atheris(case) -> Result:
+    """Replay / triage oracle for inputs found by the Atheris campaign: decode the bytes like the fuzz target does."""
+    from fuzz import targets
+
+    res = oracle_table(targets.CASES["C08"](case["data"]))
+    res.label("atheris")
+    return res
+
+
+SUBS["atheris"] = oracle_atheris
+
 def run(rec, only=None):
     quick = rec.tier == "quick"
     if rec.only is None or "conv" in rec.only:
@@ -950,3 +962,8 @@ def run(rec, only=None):
     rec.exhaustive["table"] = False
     core.drive_hypothesis(rec, "seq", seq_case(), oracle_seq, 300 if quick else 12000, seed_offset=1)
     rec.exhaustive["seq"] = False
+    if not quick and (rec.only is None or "atheris" in rec.only):
+        # coverage-guided second engine (Atheris / libFuzzer), same oracle inside the target
+        from fuzz import driver
+
+        driver.campaign(rec, "C08", oracle_atheris, runs=300000, seeds=[b'\x01\x02\x01\x00\x03\x02\x02\x06', b'\x02\x00\x03\x01\x01\x03\x04\x01\x00'], max_total_time=150, jobs=4)
